@@ -1,5 +1,2 @@
-From Coq Require Import ZArith List Bool Lia.
-From Common Require Import Words.
-From Args Require Import ArgsSpec ArgsModel.
-Import ListNotations.
-Local Open Scope Z_scope.
+(* C20 - all lemmas of the component *)
+From Args Require Export ArgsProofsStr ArgsProofsOpt ArgsProofsSplit ArgsProofsLaunch.
